@@ -10,7 +10,7 @@
     ex_failed, ex_two_dials, ex_failing_window, ex_concurrent_release. *)
 From Coq Require Import List ZArith NArith Arith.
 Import ListNotations.
-From Gnmi Require Import Conn.ConnLts Conn.ConnCheck Conn.ConnProofs Conn.ConnLive.
+From Gnmi Require Import Conn.ConnLts Conn.ConnCheck Conn.ConnProofs Conn.ConnLive Conn.ConnKSound.
 
 (** one_dial_in_flight *)
 Theorem C16_one_attempt_per_address :
@@ -198,6 +198,74 @@ Theorem C16_K_sound_one_dial_in_flight :
   forall d1, dial_in pre d1 a -> ended_in pre d1.
 Proof. exact K_sound_one_dial_in_flight. Qed.
 Print Assumptions C16_K_sound_one_dial_in_flight.
+
+(** * K_P soundness, remaining clauses (Conn/ConnKSound.v)
+
+    Each is stated on a recorded run alone (script events with the
+    observations made on the implementation) that K_P accepts.  The LTS
+    theorem that establishes the same clause for every run of the model is
+    named beside it.  Accepted / rejected example runs: ConnKSound.ex_*. *)
+
+(** releasing twice, releasing after a failed request: the event is applied
+    and shows nothing (LTS: C16_double_release_noop, C16_release_runs_once,
+    C16_release_after_failure_noop) *)
+Theorem C16_kp_noop_release_sound :
+  forall c, kaccepts c = true ->
+  forall pre i o post, c = pre ++ (ERelease i, o) :: post ->
+  released_in pre i \/ (exists r, returned_in pre i r /\ forall h, r <> OConn h) ->
+  canon o = Obs false [] [] [] [] (closed_after pre) 0%N.
+Proof. exact K_sound_noop_release. Qed.
+Print Assumptions C16_kp_noop_release_sound.
+
+(** closed once (a handle shown closed stays closed) and only by an applied
+    release of a thread without an earlier applied release; with
+    C16_K_sound_no_use_after_close: at the last release, not before
+    (LTS: C16_closed_at_most_once, C16_closed_iff_no_holder, C16_last_release_closes) *)
+Theorem C16_kp_closed_by_release_sound :
+  forall c, kaccepts c = true ->
+  forall pre e o post, c = pre ++ (e, o) :: post ->
+  (forall h, In h (closed_after pre) -> In h (o_closed (canon o))) /\
+  (forall h, In h (o_closed (canon o)) -> ~ In h (closed_after pre) ->
+     exists i, e = ERelease i /\ o_ign (canon o) = false /\ ~ released_in pre i).
+Proof. exact K_sound_closed_by_release. Qed.
+Print Assumptions C16_kp_closed_by_release_sound.
+
+(** forgotten after the close: the next request for the address that reaches
+    the join point has a Dial call of its own
+    (LTS: C16_closed_is_forgotten, C16_fresh_dial_when_no_entry) *)
+Theorem C16_kp_fresh_dial_after_close_sound :
+  forall c, kaccepts c = true ->
+  forall pre i o1 mid j o2 post h a,
+  c = pre ++ (ERelease i, o1) :: mid ++ (EReq j a true, o2) :: post ->
+  dial_in pre h a -> In h (o_closed (canon o1)) -> ~ In h (closed_after pre) ->
+  no_req_for a mid -> In j (o_joined (canon o2)) ->
+  In (j, a) (o_dials (canon o2)).
+Proof. exact K_sound_fresh_dial_after_close. Qed.
+Print Assumptions C16_kp_fresh_dial_after_close_sound.
+
+(** manager family: after every cycle that the manager check accepts, every
+    connection dialled so far is Shutdown and nothing panicked or hung: the
+    target manager's acquires and releases balance
+    (LTS: C16_closed_iff_no_holder -- closed exactly when no holder is left) *)
+Theorem C16_kp_manager_balance_sound :
+  forall c, mcheck_from 0 [] c = [] ->
+  forall pre e r post, c = pre ++ (e, r) :: post ->
+  o_bad (canon (x_o r)) = 0%N /\
+  forall d, xdialed_in (pre ++ [(e, r)]) d -> In d (o_closed (canon (x_o r))).
+Proof. exact K_sound_manager_balance. Qed.
+Print Assumptions C16_kp_manager_balance_sound.
+
+(* Not proved (statement kept): shared outcome on the observations alone.
+   joins c j d := c = pre ++ (EReq j a k, o) :: post /\ In j (o_joined (canon o)) /\
+                  ((dial_in pre d a /\ ~ ended_in pre d) \/ In (d, a) (o_dials (canon o)))
+   Theorem C16_kp_share_outcome_sound :
+     forall c, kaccepts c = true -> forall i j d ri rj,
+     joins c i d -> joins c j d -> returned_in c i ri -> returned_in c j rj -> ri = rj.
+   Needs one more invariant of the specification machine (a returned value equals
+   [kexpect] of the thread's source, which is stable once decided).  Likewise the
+   converse "closed AT the last release" (no leak) is not stated declaratively.
+   Both remain enforced by K_P as executable specification and proved for the
+   model (C16_share_outcome, C16_last_release_closes, C16_closed_iff_no_holder). *)
 
 (** * Liveness under fairness (Conn/ConnLive.v)
 
